@@ -1,6 +1,7 @@
 package main
 
 import (
+	"bytes"
 	"math/big"
 
 	"github.com/oasisprotocol/curve25519-voi/curve/scalar"
@@ -65,6 +66,15 @@ func recC05(c *ctx) {
 	}
 }
 
+// mask255 is what SetBits keeps of a 32-byte string (bit 255 cleared)
+func mask255(a []byte) []byte {
+	b := append([]byte(nil), a...)
+	if len(b) == 32 {
+		b[31] &= 0x7f
+	}
+	return b
+}
+
 func (c *ctx) scalarEvent(op string, gen func() []byte) {
 	e := vt.Ev{"op": op, "cfg": c.cfg}
 	switch op {
@@ -92,6 +102,11 @@ func (c *ctx) scalarEvent(op string, gen func() []byte) {
 			o.Mul(sa, sb)
 		}
 		e["a"], e["b"], e["out"] = vt.B(a), vt.B(b), vt.B(sbytes(o))
+		// operands that are not the receiver are read-only (their bytes, reduced or not, stay as they were)
+		if (o != sa && !bytes.Equal(sbytes(sa), mask255(a))) || (o != sb && !bytes.Equal(sbytes(sb), mask255(b))) {
+			e["out"] = vt.B(nil) // an operand was written to: reported as a wrong result
+			e["operandWritten"] = true
+		}
 	case "neg", "reduce", "invert":
 		a := gen()
 		sa := bits(a)
@@ -108,6 +123,10 @@ func (c *ctx) scalarEvent(op string, gen func() []byte) {
 			o.Invert(sa)
 		}
 		e["a"], e["out"] = vt.B(a), vt.B(sbytes(o))
+		if o != sa && !bytes.Equal(sbytes(sa), mask255(a)) {
+			e["out"] = vt.B(nil)
+			e["operandWritten"] = true
+		}
 	case "modorder":
 		a := gen()
 		s, err := scalar.NewFromBytesModOrder(a)
